@@ -123,13 +123,19 @@ Definition run_from (s : state) (evs : list event) : state := fold_left step evs
 Definition run (evs : list event) : state := run_from init evs.
 
 (* ---------------- the environment: the server, its authoritative history "as communicated" ----------------
-   The server appends the move of every P/M line it sends, removes the last move when it sends Undo (which it
-   does only after the bot accepted, and only if there is a move), appends a move it receives from the bot
-   iff that move is legal in its current position and it is the bot's turn there, and otherwise answers NOK. *)
+   The server appends the move of every P/M line it sends.  When the bot accepts an undo request (and there is a
+   move to take back) the server performs the undo AT ONCE; the Undo line tells the bot, and until it is delivered
+   the history as communicated (shist) still shows the move while `ack` records that it is already gone: a move
+   the bot transmits in that window arrives at another position and is refused.  Otherwise the server appends a
+   move it receives from the bot iff that move is legal in its current position and it is the bot's turn there,
+   and answers NOK if not.
+   Contract of the server (env_allows): only moves legal in its history; Undo only in answer to an acceptance;
+   after an acceptance the Undo line comes before any other move / undo-request line and before the grace timer
+   of an earlier move line acts (expires, or is cut short by a Time line); no malformed lines. *)
 Record server := {
   shist : list pos;           (* authoritative positions, newest first *)
   smoves : list move;
-  ack : bool;                 (* the bot accepted an undo request and the history has not changed since *)
+  ack : bool;                 (* an accepted undo has been performed and its Undo line is still outstanding *)
   sended : bool;              (* the server ended the game: Over, Abandoned., or the connection is gone *)
   noks : nat }.               (* moves of the bot the server refused *)
 
@@ -141,13 +147,22 @@ Definition srv_push (p : pos) (m : move) (v : server) : server :=
 Definition srv_end (v : server) : server :=
   {| shist := shist v; smoves := smoves v; ack := ack v; sended := true; noks := noks v |}.
 
-(* may the server do this now?  (after it ended the game nothing it says matters) *)
-Definition env_allows (v : server) (e : event) : bool :=
+Definition has2 (l : list pos) : bool := match l with _ :: _ :: _ => true | _ => false end.
+
+(* may this happen now?  (after the server ended the game nothing it says matters) *)
+Definition env_allows (s : state) (v : server) (e : event) : bool :=
   sended v ||
+  (if ack v then
+     match e with
+     | Line LUndo | Line LOther | Line LOver | Line LAbandoned | Closed | Answer _ | Late _ => true
+     | Grace | Line LTime => negb (armed s)
+     | _ => false
+     end
+   else true) &&
   match e with
   | Line (LMove m) => match apply (stop v) m with Some _ => true | None => false end
   | Line LBad => false
-  | Line LUndo => ack v && match shist v with _ :: _ :: _ => true | _ => false end
+  | Line LUndo => ack v && has2 (shist v)
   | _ => true
   end.
 
@@ -167,7 +182,7 @@ Definition srv_hears (v : server) (s s' : state) : server :=
     if length (out s) <? length (out s') then
       match out s' with
       | o :: _ =>
-        match (if bots_turn (stop v) then apply (stop v) (s_move o) else None) with
+        match (if bots_turn (stop v) && negb (ack v) then apply (stop v) (s_move o) else None) with
         | Some p' => srv_push p' (s_move o) v
         | None => {| shist := shist v; smoves := smoves v; ack := ack v; sended := sended v; noks := S (noks v) |}
         end
@@ -175,7 +190,7 @@ Definition srv_hears (v : server) (s s' : state) : server :=
       end
     else v in
   if undo_acks s <? undo_acks s' then
-    {| shist := shist v; smoves := smoves v; ack := true; sended := sended v; noks := noks v |}
+    {| shist := shist v; smoves := smoves v; ack := has2 (shist v); sended := sended v; noks := noks v |}
   else v.
 
 Definition step2 (sv : state * server) (e : event) : state * server :=
@@ -187,7 +202,7 @@ Definition step2 (sv : state * server) (e : event) : state * server :=
 Fixpoint run2_from (sv : state * server) (evs : list event) : option (state * server) :=
   match evs with
   | [] => Some sv
-  | e :: r => if env_allows (snd sv) e then run2_from (step2 sv e) r else None
+  | e :: r => if env_allows (fst sv) (snd sv) e then run2_from (step2 sv e) r else None
   end.
 Definition run2 (evs : list event) : option (state * server) := run2_from (init, srv_init) evs.
 Definition env_ok (evs : list event) : Prop := run2 evs <> None.
